@@ -3,6 +3,7 @@
 package internal
 
 import (
+    "bytes"
     "errors"
     "fmt"
     "strconv"
@@ -360,8 +361,20 @@ func (lex *lexer) AppendError(err error)  {
     lex.errors = append(lex.errors, ParseError{Pos: lex.Pos(), Err: err})
 }
 
-func (lex* lexer) Pos() ast.Position {
-    return ast.Position{Line: lex.line, Column: lex.ts - lex.lineStart + 1}
+func (lex *lexer) Pos() ast.Position {
+	// Keyword tokens include the whitespace that follows them, so by the
+	// time the position of a token is requested the line bookkeeping may
+	// already be past the line on which the token started. Walk back to
+	// that line.
+	line, lineStart := lex.line, lex.lineStart
+	for lineStart > lex.ts && lineStart > 0 {
+		line--
+		lineStart--
+		for lineStart > 0 && lex.data[lineStart-1] != '\n' {
+			lineStart--
+		}
+	}
+	return ast.Position{Line: line, Column: lex.ts - lineStart + 1}
 }
 
 func (lex* lexer) RecordPosition(n ast.Node, pos ast.Position) {
@@ -369,11 +382,17 @@ func (lex* lexer) RecordPosition(n ast.Node, pos ast.Position) {
 }
 
 func (lex *lexer) LastDocstring() string {
-    // If we've had more than one line since we recorded
-    // the docstring, ignore it.
-    if lex.linesSinceDocstring > 1 {
-        return ""
-    }
+	// If we've had more than one line since we recorded
+	// the docstring, ignore it. Newlines inside the current token (keyword
+	// tokens include the whitespace that follows them) come after the
+	// start of the entity being documented and don't count.
+	lines := lex.linesSinceDocstring
+	if lex.ts >= 0 && lex.ts <= lex.te && lex.te <= len(lex.data) {
+		lines -= bytes.Count(lex.data[lex.ts:lex.te], []byte{'\n'})
+	}
+	if lines > 1 {
+		return ""
+	}
 
     s := lex.lastDocstring
     lex.lastDocstring = ""
